@@ -12,7 +12,10 @@
 (* Every action logs what an observer must see in that step:                 *)
 (*   ev  - lifecycle events raised (connection-up, connection-down,          *)
 (*         port-status), in order; the same sequence on the nexus and on     *)
-(*         the connection objects                                            *)
+(*         the connection objects.  Each event also carries what its HANDLER *)
+(*         sees at that instant: r = the connection the registry gives for   *)
+(*         the event's dpid, t = the connection a sendToDPID(dpid) issued    *)
+(*         from inside the handler reaches (0 = none)                        *)
 (*   reg - the registry after the step, as a set of <<dpid, connection>>     *)
 (*   gone- the connections whose socket the controller has shut down or      *)
 (*         closed (what the switch sees as the end of the TCP session)       *)
@@ -69,7 +72,9 @@ Live(c)   == ph[c] = "open" /\ ~lost[c]
 HalfOpen(c) == Live(c) /\ ~ann[c]
 IsUp(c)   == Live(c) /\ ann[c]             \* live and fully handshaken
 
-E(k, c, x) == [k |-> k, c |-> c, x |-> x]
+\* event k of connection c with argument x (dpid / port); rr = the connection
+\* registered for c's dpid while the handlers of the event run
+E(k, c, x, rr) == [k |-> k, c |-> c, x |-> x, r |-> rr, t |-> rr]
 A(c, d, p, k) == [c |-> c, d |-> d, p |-> p, k |-> k]
 RegPairs(r) == {<<d, r[d]>> : d \in {dd \in Dpids : r[dd] # 0}}
 O(ev, r, g, to, ok) == [ev |-> ev, reg |-> RegPairs(r), gone |-> g, to |-> to, ok |-> ok]
@@ -114,8 +119,9 @@ DownChoices(c, final) ==
   ELSE IF ann[c] /\ final THEN {TRUE}
   ELSE {TRUE, FALSE}
 
-DownEv(c, r) == IF r THEN <<E("Down", c, feat[c])>> ELSE <<>>
-PSEvs(c, s) == [i \in 1..Len(s) |-> E("PS", c, s[i])]
+\* rg = the registry at the instant the event is delivered
+DownEv(c, r, rg) == IF r THEN <<E("Down", c, feat[c], rg[feat[c]])>> ELSE <<>>
+PSEvs(c, s, rg) == [i \in 1..Len(s) |-> E("PS", c, s[i], rg[feat[c]])]
 \* ports of the buffered messages that are delivered when the optional ones
 \* with index in keep are kept: arrival order preserved
 Optional(s) == {i \in 1..Len(s) : ~s[i].firm}
@@ -136,7 +142,7 @@ GiveUp(c, r, a, args, ok) ==
   /\ ups' = Without(ups, c)
   /\ defer' = [defer EXCEPT ![c] = <<>>]
   /\ UNCHANGED <<ph, feat, ann>>
-  /\ Log(a, args, O(DownEv(c, r), RegWithout(c), Gone \cup {c}, 0, ok))
+  /\ Log(a, args, O(DownEv(c, r, RegWithout(c)), RegWithout(c), Gone \cup {c}, 0, ok))
 
 ----------------------------------------------------------------------------
 \* the loop accepts the next TCP session
@@ -168,8 +174,27 @@ Complete(c, a, args) ==
   /\ defer' = [defer EXCEPT ![c] = <<>>]
   /\ UNCHANGED <<ph, lost, feat, down>>
   /\ \E keep \in SUBSET Optional(defer[c]) :
-       Log(a, args, O(<<E("Up", c, d)>> \o PSEvs(c, Kept(defer[c], keep)),
+       Log(a, args, O(<<E("Up", c, d, c)>> \o PSEvs(c, Kept(defer[c], keep), r2),
                       r2, Gone, 0, TRUE))
+
+\* the handshake completes and a ConnectionUp listener on the connection
+\* rejects the switch: it calls disconnect() from inside its handler.  While
+\* connection-up is delivered the registry leads to c; afterwards c is given
+\* up like in Disconnect.  (Modelled without buffered port-status: whether
+\* those are still delivered to a rejected connection is left open.)
+RxBarrierReject(c) ==
+  LET d == feat[c] IN
+  LET r2 == [reg EXCEPT ![d] = LatestIn(ups, d, c)] IN   \* c registered, then gone
+  /\ HalfOpen(c) /\ d # 0 /\ defer[c] = <<>>
+  /\ ann' = [ann EXCEPT ![c] = TRUE]
+  /\ lost' = [lost EXCEPT ![c] = TRUE]
+  /\ reg' = r2
+  /\ UNCHANGED <<ph, feat, defer, ups>>
+  /\ \E r \in BOOLEAN :
+       /\ down' = [down EXCEPT ![c] = r]
+       /\ Log("RxBarrierReject", A(c, 0, 0, "match"),
+              O(<<E("Up", c, d, c)>> \o (IF r THEN <<E("Down", c, d, r2[d])>> ELSE <<>>),
+                r2, Gone \cup {c}, 0, TRUE))
 
 \* barrier reply: k = "match" carries the xid of the controller's pending
 \* (or, once up, completed) barrier request, "other" any other xid
@@ -199,7 +224,7 @@ RxPortStatus(c, p) ==
   /\ IF ann[c]
      THEN /\ UNCHANGED <<ph, lost, feat, ann, down, defer, reg, ups>>
           /\ Log("RxPortStatus", A(c, 0, p, ""),
-                 O(<<E("PS", c, p)>>, reg, Gone, 0, TRUE))
+                 O(<<E("PS", c, p, reg[feat[c]])>>, reg, Gone, 0, TRUE))
      ELSE /\ Len(defer[c]) < MaxPS
           /\ defer' = [defer EXCEPT ![c] =
                          Append(defer[c], [p |-> p, firm |-> feat[c] # 0])]
@@ -242,7 +267,7 @@ Close(c) ==
        /\ ups' = Without(ups, c)
        /\ defer' = [defer EXCEPT ![c] = <<>>]
        /\ UNCHANGED <<feat, ann>>
-       /\ Log("Close", A(c, 0, 0, ""), O(DownEv(c, r), r2, Gone \cup {c}, 0, TRUE))
+       /\ Log("Close", A(c, 0, 0, ""), O(DownEv(c, r, r2), r2, Gone \cup {c}, 0, TRUE))
 
 \* a component sends to a datapath id
 SendTo(d) ==
@@ -262,6 +287,7 @@ Next == \/ \E c \in Conns : Accept(c)
         \/ \E c \in Conns, d \in Dpids : RxFeatures(c, d)
         \/ \E c \in Conns, k \in {"match", "other"} : RxBarrier(c, k)
         \/ \E c \in Conns, k \in ErrKinds : RxErr(c, k)
+        \/ \E c \in Conns : RxBarrierReject(c)
         \/ \E c \in Conns, p \in Ports : RxPortStatus(c, p)
         \/ \E c \in Conns : RxEchoFail(c)
         \/ \E c \in Conns, k \in {"match", "unsup"} : RxEchoFailThen(c, k)
@@ -317,9 +343,9 @@ UpExactlyOnce ==
        /\ n = (IF ann'[c] /\ ~ann[c] THEN 1 ELSE 0)
        /\ (ann[c] => ann'[c])
        /\ n = 1 => /\ Live(c) /\ feat[c] # 0 /\ feat'[c] = feat[c]
-                   /\ last'.a \in {"RxBarrier", "RxErr", "RxEchoFailThen"}
+                   /\ last'.a \in {"RxBarrier", "RxErr", "RxEchoFailThen", "RxBarrierReject"}
                    /\ last'.args.c = c /\ last'.args.k \in {"match", "unsup"}
-                   /\ last'.exp.ev[1] = E("Up", c, feat[c])]_vars
+                   /\ last'.exp.ev[1] = E("Up", c, feat[c], c)]_vars
 
 \* connection-down at most once, exactly once for an announced connection by
 \* the time its socket is closed, never for a live connection
@@ -339,15 +365,15 @@ PortStatusOrder ==
        LET evc == SelectSeq(last'.exp.ev, LAMBDA e : e.c = c /\ e.k # "Down") IN
        /\ (evc # <<>> /\ evc[1].k = "PS") =>
              /\ ann[c] /\ last'.a = "RxPortStatus" /\ last'.args.c = c
-             /\ evc = <<E("PS", c, last'.args.p)>>
+             /\ evc = <<E("PS", c, last'.args.p, reg'[feat[c]])>>
        /\ (evc # <<>> /\ evc[1].k = "Up") =>
              \* every message that arrived after the features reply, in
              \* arrival order, possibly with earlier ones, nothing else
              /\ \E keep \in SUBSET Optional(defer[c]) :
-                  evc = <<E("Up", c, feat[c])>> \o PSEvs(c, Kept(defer[c], keep))
+                  evc = <<E("Up", c, feat[c], c)>> \o PSEvs(c, Kept(defer[c], keep), reg')
              /\ defer'[c] = <<>>
        /\ (last'.a = "RxPortStatus" /\ last'.args.c = c) =>
-             \/ ann[c] /\ evc = <<E("PS", c, last'.args.p)>>
+             \/ ann[c] /\ evc = <<E("PS", c, last'.args.p, reg'[feat[c]])>>
              \/ /\ ~ann[c] /\ evc = <<>>
                 /\ defer'[c] = Append(defer[c], [p |-> last'.args.p,
                                                  firm |-> feat[c] # 0])
@@ -366,6 +392,21 @@ SendReaches ==
        /\ last'.exp.ok => /\ last'.exp.to = LatestIn(ups, d, 0)
                           /\ IsUp(last'.exp.to) /\ feat[last'.exp.to] = d
        /\ ~last'.exp.ok => last'.exp.to = 0]_vars
+
+\* WHAT HANDLERS SEE: while connection-up of c is delivered the registry (and
+\* a send by dpid) leads to c; while connection-down of c is delivered it no
+\* longer does - it leads to the most recent other live announced connection
+\* of that dpid or nowhere; a port-status handler sees the registry of the
+\* state the step ends in.  Never a connection that is not live and announced.
+InHandlerView ==
+  [][\A i \in 1..Len(last'.exp.ev) :
+       LET e == last'.exp.ev[i] IN
+       /\ e.t = e.r
+       /\ e.k = "Up" => e.r = e.c
+       /\ e.k = "Down" => e.r # e.c /\ e.r = reg'[feat[e.c]]
+       /\ e.k = "PS" => e.r = reg'[feat[e.c]] /\ e.r # 0
+       /\ (e.r # 0 /\ e.r # e.c) =>
+             ph'[e.r] = "open" /\ ~lost'[e.r] /\ ann'[e.r] /\ feat[e.r] = feat[e.c]]_vars
 
 \* the registry reported in every observation is the registry
 ObsRegistry ==
@@ -397,6 +438,7 @@ ImplChoice ==
   /\ a \in {"RxEchoFail", "RxEchoFailThen"} => lost'[c] /\ ~raised  \* gives up, event
   /\ a = "SendToFail" => lost'[reg[last'.args.d]] /\ ~raised       \* deferred to close
   /\ a = "Disconnect" => (raised <=> TRUE \in DownChoices(c, FALSE))
+  /\ a = "RxBarrierReject" => Len(last'.exp.ev) = 2           \* disconnect() raises at once
   /\ (a = "RxBarrier" /\ last'.args.k = "other" /\ HalfOpen(c) /\ feat[c] # 0) =>
         lost'[c] /\ ~raised                                       \* dropped silently
   /\ (a = "Close" /\ Live(c)) => (raised <=> TRUE \in DownChoices(c, TRUE))
